@@ -112,11 +112,17 @@ class DotGraphMachine:
 
         return actions
 
+    def _state_node_id(self, state):
+        # unquoted, these names are DOT statements setting default attributes, not nodes
+        if state.id.lower() in ("node", "edge", "graph"):
+            return f'"{state.id}"'
+        return state.id
+
     def _state_as_node(self, state):
         actions = self._state_actions(state)
 
         node = pydot.Node(
-            state.id,
+            self._state_node_id(state),
             label=f"{state.name}{actions}",
             shape="rectangle",
             style="rounded, filled",
